@@ -10,13 +10,17 @@ def run(ctx):
                            extra_assume=["the projected state compared with the model after every commit IS a set of historical queries: it is read at the end of the run with Height = h for every h, so 'the answer for height h is the state committed by block h' is part of the correspondence",
                                          "answers are compared as JSON values: the query encoder writes a proposal's voter map in Go's iteration order, so the bytes of two answers may differ in member order",
                                          "stakes/voting_power reads current parameters and vm_call needs a Tendermint RPC environment: both outside the property's list"],
-                           profile="corpus queries",
-                           nontrivial_rule="every history is executed again on a real node that is asked all query paths for sampled (key, height) pairs between blocks, in the middle of blocks, after later blocks and after a restart; the first answer for a (path, key, height) is remembered and every later answer must equal it; height 0 must equal the latest committed height; heights above it must be refused")
+                           profile="corpus queries noise",
+                           nontrivial_rule="every history is executed again on a real node that is asked all query paths for sampled (key, height) pairs between blocks, in the middle of blocks, after later blocks and after a restart; the first answer for a (path, key, height) is remembered and every later answer must equal it; a third node runs the history under mempool traffic (CheckTx of delivered, altered and freshly signed never-delivered transactions) and every query it answers for a committed height must equal the quiet node's answer; height 0 must equal the latest committed height; heights above it must be refused")
     if res is None:
         return
     st = ctx.app_stats
     for d in (st.get("QueryBad") or [])[:5]:
         V.violation(ctx, "query-answer-changed", {"kind": "query-answer-not-stable", "theorem": "C19_holds", "what": d})
+    for d in (st.get("NoiseQueryDiffs") or [])[:5]:
+        V.violation(ctx, "query-answer-depends-on-mempool", {"kind": "query-answer-differs-from-committed-state-under-mempool-traffic", "theorem": "C19_holds", "what": d})
+    common.patch_evidence(ctx, {"noisy_runs": st.get("NoiseRuns", 0), "queries_compared_under_mempool_traffic": st.get("NoiseQueriesCompared", 0),
+                                "mempool_checks_passed_never_delivered": st.get("NoiseFreshPassed", 0)})
     common.patch_evidence(ctx, {"query_runs": st.get("QueryRuns", 0), "queries_asked": st.get("QueryAsked", 0), "repeated_questions": st.get("QueryRepeated", 0),
                                 "asked_mid_block": st.get("QueryMidBlock", 0), "height_0": st.get("QueryHeight0", 0), "beyond_latest": st.get("QueryBeyond", 0)},
                           distinct=st.get("QueryRepeated", 0))
